@@ -69,9 +69,7 @@ func enumRead(fam string, parts []string) []*instance {
 	var out []*instance
 	for _, sq := range seqs {
 		for _, tm := range terms {
-			if tm == "D" && sq[len(sq)-1] == 'h' {
-				continue // a heartbeat that arrives together with an error carries no data
-			}
+			// (terminal D after a heartbeat: the keep-alive itself arrives together with the error; it still must not surface)
 			for _, p := range pats {
 				ps := make([]string, len(p))
 				for i, v := range p {
